@@ -15,6 +15,26 @@ CLAIMED = {
             "Bounds: <=3 (quick) / <=4 (thorough) attributes over 4 namespaces x 4 locals x 2 values; the empty-string "
             "namespace is excluded (walker streams never contain it; lint forbids it). Trusted: TLC, the projection "
             "harness/tok.py.", "5/C18"),
+    "C17": ("model_checking",
+            "TLA+ spec Whitespace (counter machine vs ancestor-based property); TLC bounded-exhaustive on intended and "
+            "code-faithful configurations; spec->code replay; code->spec trace validation (Trace_Whitespace)",
+            "TLC proves counter=ancestors, only-whitespace-changes (on concatenated text) and idempotence for all balanced "
+            "streams within the bound on the intended design; the code-faithful machine (listed deviations enabled) is "
+            "replayed state by state into the real filter, and recorded walker streams are validated token by token.",
+            "Bounds: streams <=4 (quick) / <=5 (thorough) tokens over 4 element names, 5+5 text data, br, comment. Walker "
+            "conventions assumed (SpaceCharacters tokens are all-whitespace; streams balanced). Trusted: TLC, harness/tok.py.",
+            "5/C17"),
+    "C13": ("model_checking",
+            "TLA+ spec OptionalTags (sliding-window machine with named deviations + the standard's MayOmit relation); TLC "
+            "exhaustive over all (parent, sibling, tag, follower) windows and short structural streams; spec->code replay; "
+            "code->spec trace validation (Trace_OptionalTags)",
+            "TLC proves Removed is a subset of MayOmit for the intended machine on every window/stream in the bound, and that "
+            "every illegal removal of the code-faithful machine is explained by a listed deviation; every explored stream is "
+            "replayed into the real filter (exact equality) and walker streams of real parses are validated token by token "
+            "with each removal judged by MayOmit.",
+            "MayOmit is my transcription of the 'optional tags' section (no network); the tfoot-before-tbody disjunct is ASSUMED "
+            "to follow the code. The parse-equivalence clause for conforming documents is covered by C07. Walker conventions "
+            "assumed (balanced streams, leading whitespace split into SpaceCharacters).", "5/C13"),
 }
 
 NOT_YET = "check not built yet in this round (planned, see DESIGN.md section 5)"
